@@ -8,7 +8,7 @@ import "context"
 
 // at most c executions in flight, in every reachable state of every schedule
 func VH_C08_bound() {
-	vUnwind(10)
+	vUnwind(24)
 	m := &bMon{}
 	bConfig(m)
 	vAssume(m.c >= 1)
@@ -42,7 +42,7 @@ func VH_C08_bound() {
 
 // concurrency <= 0: strictly one at a time, in item order
 func VH_C08_seq() {
-	vUnwind(10)
+	vUnwind(24)
 	m := &bMon{}
 	bConfig(m)
 	vAssume(m.c <= 0)
@@ -66,7 +66,7 @@ func VH_C08_seq() {
 
 // the limit is usable: c executions that all block until c are in flight do run simultaneously
 func VH_C08_usable() {
-	vUnwind(10)
+	vUnwind(24)
 	m := &bMon{}
 	bConfig(m)
 	vAssume(m.c >= 1 && m.n >= m.c)
@@ -90,7 +90,7 @@ func VH_C08_usable() {
 
 // pool sizes <= 0 mean one worker: such a pool runs its tasks, one at a time
 func VH_C08_poolNonPositive() {
-	vUnwind(10)
+	vUnwind(24)
 	k := vNondet[int]("k")
 	vAssume(-3 <= k && k <= 0)
 	k = vConcrete(k)
@@ -112,7 +112,7 @@ func VH_C08_poolNonPositive() {
 
 // the same bound directly on the pool
 func VH_C08_poolBound() {
-	vUnwind(10)
+	vUnwind(24)
 	c := vParam("c", 2)
 	t := vParam("tasks", 3)
 	inflight := 0
@@ -133,7 +133,7 @@ func VH_C08_poolBound() {
 // the pool's limit is usable after the pool has been idle: c mutually dependent tasks submitted
 // back to back to a pool that has already run (and finished) a task do run simultaneously
 func VH_C08_poolUsable() {
-	vUnwind(10)
+	vUnwind(24)
 	c := vParam("c", 2)
 	inflight, reached := 0, false
 	p := NewWorkerPool(c)
